@@ -1,46 +1,84 @@
 """py2lean — a small Python → Lean 4 translator for a RESTRICTED, explicitly enumerated subset of Python.
 
 It regenerates, from the CURRENT Python source of the functions listed in `harness/gen_targets.json`, the Lean
-definitions of `lean/Fca/Gen/Generated.lean`.  `lean/Fca/Gen/Equiv.lean` / `EquivOps.lean` prove every generated
-definition equal to the hand-written model (`f_eq_model`), so every property theorem about the model transfers to the
-source-derived definition.  Anything outside the subset is REFUSED with `Untranslatable(construct, line)` — the
+definitions of `lean/Fca/Gen/Generated*.lean` (one file per `"unit"` of the target list: `Generated.lean` for
+`fcapy/context/bintable.py`, `GeneratedCtx.lean` for `fcapy/context/formal_context.py`).  `lean/Fca/Gen/Equiv*.lean` prove
+every generated definition equal to the hand-written model (`f_eq_model`), so every property theorem about the model
+transfers to the source-derived definition.  Anything outside the subset is REFUSED with `Untranslatable(construct, line)` — the
 translator never guesses.
 
 WHAT IS TRANSLATED (everything else raises `Untranslatable`)
-  statements   assignment to local names (`x = e`, `a, b = e1, e2`, `a, b = pair`), `if/elif/else`, `for pat in iter`
-               (no `else:` clause), `break`, `continue`, `return e`, `assert e`, `pass`, a docstring.
+  statements   assignment to local names (`x = e`, `a, b = e1, e2`, `a, b = pair`; `x = []` when the target declares the
+               type of `x` under `"locals"`), `if/elif/else`, `for pat in iter` (no `else:` clause), `break`, `continue`,
+               `return e` (`return None` / `return e` into a declared `Option` result), `assert e`, `pass`, a docstring;
+               `x.append(e)` and `x |= e` (set update) on an un-aliased local list / set (A5);
+               `try: B  except E [as e]: raise E(message)` (A9).
   expressions  names, `True/False`, non-negative integer literals, `recv.field` for the declared record fields,
                `a[i]` (list, non-negative index), `x if c else y`, `not/and/or` on bools, `& |` on bools, `+` on ints
                and on lists, `list * int`, one comparison `== != < <= > >=`, `x is None / x is not None` (x declared
                `Option`), list displays, 2-tuples, list comprehensions (one `for`; `if` clauses when neither they nor
                the element can raise; nested comprehensions and tuple targets allowed), and the calls `len all any sum
-               int(bool) bool(bool) range(n) zip(a, b) enumerate(a)`, `self.m(...)` when `m` is itself a target,
-               `self.__class__(rows)` when the record declares a constructor.
+               int(bool) bool(bool) range(n) zip(a, b) enumerate(a) list(a) set(a)`, `x in a / x not in a` (a list, or a
+               `set(…)` — which supports nothing else), `d[k]` for a declared `Dict K V`, printable string constants,
+               `xs[k:]` (literal k >= 0), `p[0] / p[1]` of a pair, `not xs` on a list (emptiness), `< <= > >=`, `min(a, b)`,
+               `max(a, b)` on `Num`, `int(n)` of an int, `a | b`, `a & b`, `a == b` on sets, `all(e for x in xs)` /
+               `any(…)` over a generator (short-circuit: `Gen.allM / anyM`), comprehensions whose `if` or element may raise
+               (`Gen.filterMapM`: conditions left to right, then the element),
+               `recv.m(...)` / the read of a `@property` `recv.m` when `recv` is `self` or a record-typed expression and
+               `m` is itself a target for that receiver class, `self.__class__(rows)` when the record declares a constructor.
   control flow Lean `do`-notation in the monad `Except Fca.PyErr`: `for … do`, `break`, `continue`, early `return`,
                `let mut` for locals re-assigned inside a loop / branch.  An `if` that introduces or re-types locals
                (and contains no `return/break/continue`) becomes `let (w₁, …) ← (if/match … pure (w₁, …))`.
                `if x is None … else …` becomes `match x with | none => … | some x => …` (x is narrowed in the branch;
                `if x is None: …return` followed by more statements puts those statements in the `some` branch).
+  units        a target belongs to a `"unit"` (one generated file each); a unit may add parameters to every one of its
+               definitions (`"extra_params"`, passed along by calls inside the unit: the set-iteration order `ord` of
+               the `Poset` unit), and a record may add implicit type parameters (`"tparams"`).
   specialising a target may fix parameters to constants (`"const": {"axis": 1}`): the parameter disappears from the Lean
                signature, and `if`s whose test is decided by the constants (`axis is None`, `axis == 0`, `axis not in
                {None, 0, 1}`, `not`/`and`/`or` of those) keep only the live branch — the dead branch is NOT translated
-               (a comment is left), statements after a live `return` are dropped.  The same mechanism drops
-               `if isinstance(x, slice):` for an `x` declared as a list (A1).
+               (a comment is left), statements after a live `return` are dropped.  A constant may be `None` (then the
+               parameter can only be tested, not used as a value).  The same mechanism decides, from the DECLARED types
+               (A1), `isinstance(x, slice)` (False for a declared list / int / bool), `isinstance(x, Number)` (False for a
+               declared pair / list / set, True for `Num` / `Nat`; only when the module binds `Number` by
+               `from numbers import Number` and nowhere else, and `x` is not re-bound), and `type(a) == type(b)` /
+               `!=` for two record parameters (A2) — in `if` statements and in `x if c else y`.
 
 WHAT IS ASSUMED (this file joins the trusted base; each item is a modelling decision, not something proved)
-  A1 types     parameters have the types declared in `gen_targets.json` (`Bool`, `Nat`, `List T`, `Option T`, `A × B`,
-               a record).  In particular integers are NON-NEGATIVE (`Nat`): `a[i]` is `Gen.idx a i`, which raises
+  A1 types     parameters have the types declared in `gen_targets.json` (`Bool`, `Nat`, `String`, `List T`, `Option T`,
+               `A × B`, `Dict K V`, a record).  A parameter default must be `None` (declared `Option`), a bool or a
+               non-negative int of the declared type; a `List T` argument may be passed where `Option (List T)` is declared.  In particular integers are NON-NEGATIVE (`Nat`): `a[i]` is `Gen.idx a i`, which raises
                `IndexError` when `i ≥ len(a)`; Python's wrap-around for negative indexes is out of scope.  `int` never
                overflows (Python ints are unbounded, so is `Nat`); `-` is refused (`Nat` subtraction truncates).
+               `Num` is a number on which only `< <= > >= == min max` are used; it is carried as `Int` (as in the
+               hand-written model `Fca/Model/PS.lean`): the values are assumed to be totally ordered and exactly
+               comparable — Python ints, or floats that are not NaN (`float('inf')` would be an extra element of the
+               order; none of the translated functions produces it).
                `isinstance(x, slice)` is `False` for an `x` declared as a list: slice arguments of `_get_row /
                _get_column` are outside the translated functions.
-  A2 receiver  `self` / `other` are records: `recv.data : List (List Bool)`, `recv.height = len(recv.data)`,
+  A2 receiver  a record-typed value is an instance of EXACTLY the record's Python class (not of a subclass).
+               `self` / `other` are records: `recv.data : List (List Bool)`, `recv.height = len(recv.data)`,
                `recv.width` = the stored width, `recv.shape = (height, width)` — i.e. the Python properties
                `height/width/shape` return what `AbstractBinTable.data.setter` stored, and `len(data[i]) = width` is
                the well-formedness hypothesis `Table.WF` of the theorems, not of the translator.
                `self.__class__(rows)` is `Table.ofRows rows` (rows, width of the first row); `_validate_data` is assumed
                to accept `rows` (it does for rectangular lists of bools — again `WF` on the theorem side).
-  A3 builtins  `bool & bool`, `bool | bool`, `a and b`, `a or b`, `not a` on bools are `&& || !` (`and/or` evaluate the
+               A record may name its Python class (`"class"`, `"file"`): then `recv.m(…)` on an expression of that
+               record type is resolved in that class (A7).  The record `Ctx` is a `FormalContext` whose `_data` is a
+               `BinTableLists` (the lists backend — the other backends are not translated); `_object_names /
+               _attribute_names` are the name tuples, and `_object_names_i_map / _attribute_names_i_map` are what the
+               setters of `object_names / attribute_names` store: `{name: idx for idx, name in enumerate(names)}`
+               (`Fca.Gen.enumDict`; the setters themselves are not translated).  `data`, `n_objects`, `n_attributes`
+               are NOT assumed: they are `@property` targets, translated from their source.
+  A3 builtins  `list(a)` of a list is `a` (a copy — invisible without mutation, A5); `set(a)` is carried as the list `a`
+               and supports only `in / not in` (`List.contains`; iteration, `len`, `==` on a set are refused: order and
+               multiplicity are not represented); `x in a` on a list compares with `==`; `d[k]` on a `Dict` looks up the
+               LAST pair with key `k` of an association list (insertion order: a later binding overwrites) and raises
+               `KeyError` when there is none; strings are compared with `==` only.
+               A `Set T` value is a list up to membership: `a | b`, `a & b`, `a == b` (mutual inclusion) and `in` are
+               insensitive to order and repetition; nothing that depends on them (`len`, iteration, `sorted`) is
+               translated.  `min(a, b)` / `max(a, b)` return the FIRST minimal / maximal argument.
+               `bool & bool`, `bool | bool`, `a and b`, `a or b`, `not a` on bools are `&& || !` (`and/or` evaluate the
                right operand only when needed; `& |` always evaluate both, left first); `all/any` of a list of bools
                are `List.all/any id`; `sum` of bools counts `True`, `sum` of ints adds; `int(True) = 1`;
                `range(n)` is the list `0..n-1`, `zip` stops at the shorter argument, `enumerate` counts from 0 — all
@@ -48,16 +86,40 @@ WHAT IS ASSUMED (this file joins the trusted base; each item is a modelling deci
                `[x] * n` repeats; `==` on lists/tuples/bools/ints is structural equality; `assert` raises
                `AssertionError` (Python is not run with `-O`).  (A module that re-binds one of these builtin names is refused.)
   A4 order     sub-expressions are evaluated left to right, comprehension elements in order; the first exception wins.
-  A5 aliasing  there is none: the subset has no mutation of objects (`append`, item assignment, `+=` are refused), so
-               Python's reference semantics and Lean's value semantics agree.
+  A5 aliasing  there is none: the only mutation of an object in the subset is `x.append(e)` on a local list that nobody
+               else can see — `x` is not a parameter, every binding of `x` is a fresh list (display, comprehension,
+               `list(…)`, `+`, `*`), and every read of `x` other than as the receiver of `append` comes after the last
+               `x.append` and outside every loop containing one; it is translated as `x = x + [e]`.  Everything else
+               (item assignment, `+=`, `append` on anything else) is refused, so Python's reference semantics and
+               Lean's value semantics agree.
   A6 scoping   a name first bound inside a `for`/`if` block and read after the block is refused (Lean blocks are scoped);
                a name bound in only one branch of an `if` and read later is refused (possible `UnboundLocalError`).
-  A7 calls     `self.m(args)` is resolved the way Python does for an instance of the receiver's class (the class of the
+  A7 calls     `recv.m(args)` for a record-typed `recv` other than `self` is resolved in the class the record declares
+               (`"class"`, `"file"`), the same way.  `self.m(args)` is resolved the way Python does for an instance of the receiver's class (the class of the
                target, or its `"self_class"`): first class defining `m` along the single-inheritance chain found in the
                source file; that method must itself be a target (with matching constants); a target `D.m` declared for
                a `"self_class": C` is refused when `C` (or a class between) overrides `m`.  Arguments are positional;
                omitted trailing `Option` parameters are `None`.  No monkey-patching, no `__getattr__`.
   A8 constants a `"const"` specialisation describes the function only for calls with exactly those argument values.
+  A10 sets     the order in which Python walks a set (`list(s)`, `for x in list(s)`) is unspecified: it is the explicit
+               parameter `ord : List Nat → List Nat` of every definition of a unit that declares `"order_param"` (the
+               hand-written model and its theorems quantify over the same `ord`); `list(s)` is `ord s`.  A unit without
+               that declaration refuses `list(s)`.  Set comprehensions `{e for x in xs if c}` and displays `{a, b}` are
+               the corresponding lists read as sets; `frozenset(s)` / `copy(s)` (only when the module binds `copy` by
+               `from copy import copy`) are `s`; `a - b` is `Gen.setDiff`; `len(s) == 0` / `!= 0` is emptiness — every
+               other use of `len(s)` is refused.  `FSet T` is a `frozenset`: `x |= e`, `x &= e`, `x -= e` only re-bind
+               `x`; on a `Set T` (a mutable `set`) they update in place and fall under A5.
+  A11 functions a record field declared with `"args"/"ret"` holds a function (`POSet._leq_func`): calling it is an ordinary
+               application — the function is assumed pure, total and of the declared type (an exception raised by a
+               user-supplied `leq_func` is not modelled); it cannot be used as a value.  `"tvars"` declares type
+               variables (`Elem` ↦ `α`): values of such a type can only be passed around.
+  A12 POSet    the record `POSet` is a poset built with `use_cache=False`: `__init__` then leaves `leq_elements`,
+               `descendants`, `ancestors`, `children`, `parents` un-rebound, so `self.m(…)` is the class's method `m`
+               (A7).  `len(self)` is `self.__len__()`, itself a target.
+  A9 errors    only the CLASS of an exception is modelled (`Fca.PyErr`), not its message or chaining.  Hence
+               `try: B  except E [as e]: raise E(message)` — one handler, no `else/finally`, `E` one of KeyError /
+               IndexError / AssertionError / ValueError / TypeError, the same class re-raised, `message` string
+               constants / f-strings of plain names (cannot raise) — is translated as `B`.  Every other `try` is refused.
   Not modelled: exceptions other than IndexError/AssertionError, recursion depth, running time, memory.
 
 The output depends only on the AST (not on comments, docstrings, blank lines, annotations, line numbers) and on the
@@ -98,11 +160,14 @@ class _Fallback(Exception):
 
 
 # ---------------------------------------------------------------------------------------------- types
-BOOL, NAT = ('Bool',), ('Nat',)
+BOOL, NAT, STRING, NUM = ('Bool',), ('Nat',), ('String',), ('Num',)
 
 
 def List_(t):
     return ('List', t)
+
+
+TVARS = {}          # type variables of the target list (`"tvars": {"Elem": "α"}`), set by load_config
 
 
 def parse_type(s, records):
@@ -127,14 +192,24 @@ def parse_type(s, records):
             return BOOL
         if t == 'Nat':
             return NAT
+        if t == 'String':
+            return STRING
+        if t == 'Num':
+            return NUM
         if t in records:
             return ('Rec', t)
+        if t in TVARS:
+            return ('TVar', t)
         raise ValueError(f'unknown type {t!r} in {s!r}')
 
     def app():
-        if peek() in ('List', 'Option'):
+        if peek() in ('List', 'Option', 'Set', 'FSet'):
             h = eat()
             return (h, atom())
+        if peek() == 'Dict':
+            eat()
+            k = atom()
+            return ('Dict', k, atom())
         return atom()
 
     def typ():
@@ -152,12 +227,20 @@ def parse_type(s, records):
 
 def show_type(t, records, top=True):
     k = t[0]
-    if k in ('Bool', 'Nat'):
+    if k in ('Bool', 'Nat', 'String'):
         return k
+    if k == 'Num':
+        return 'Int'
     if k == 'Rec':
-        return records[t[1]]['lean']
+        return records[t[1]]['lean'] if top or ' ' not in records[t[1]]['lean'] else '(' + records[t[1]]['lean'] + ')'
+    if k == 'TVar':
+        return TVARS[t[1]]
     if k in ('List', 'Option'):
         s = f'{k} {show_type(t[1], records, False)}'
+    elif k in ('Set', 'FSet'):         # a Python set / frozenset: a list up to membership
+        s = f'List {show_type(t[1], records, False)}'
+    elif k == 'Dict':        # a Python dict read by `d[k]` only: an association list (the LAST binding of a key counts)
+        s = f'List ({show_type(t[1], records, False)} × {show_type(t[2], records, False)})'
     else:
         s = f'{show_type(t[1], records, False)} × {show_type(t[2], records, False)}'
     return s if top else f'({s})'
@@ -227,6 +310,7 @@ class Scope:
         # strict: a branch of a native `if` that is being tried for a jump-free `if` (must not introduce locals).
         self.parent, self.frame, self.block, self.strict = parent, frame, block, strict
         self.vars, self.dead, self.assigned = {}, set(), []
+        self.tail = parent is None     # nothing of the function runs after this scope's statements (a `let` may shadow)
         self.end = parent.end if parent is not None else (10 ** 9, 0)    # where the frame ends (line, column)
 
     def lookup(self, name):
@@ -260,11 +344,14 @@ def is_docstring(s):
 
 # ---------------------------------------------------------------------------------------------- the translator
 class FunctionTranslator:
-    def __init__(self, fn, target, cfg, done, classes):
+    def __init__(self, fn, target, cfg, done, classes, get_classes=None):
         # done: [dict(qualname, lean, consts, params (names after self), types, ret)] of the targets translated so far
         # classes: {class name: ClassDef} of the source file (to resolve `self.m` along the single-inheritance chain)
         self.fn, self.target, self.cfg, self.done, self.classes = copy.deepcopy(fn), target, cfg, done, classes
         self.records = cfg['records']
+        self.copy_ok = False           # `copy` is `copy.copy` in the module of the target (set by translate_all)
+        self.number_ok = False         # `Number` is `numbers.Number` in the module of the target (set by translate_all)
+        self.get_classes = get_classes or (lambda file: self.bad(f'classes of {file} are not available'))
         self.consts = dict(target.get('const', {}))        # parameters fixed to a constant (specialisation)
         self.ntemp = 0
         fn = self.fn
@@ -322,11 +409,15 @@ class FunctionTranslator:
             return E([], 'true' if v else 'false', BOOL)
         if isinstance(v, int) and v >= 0:
             return E([], str(v), NAT)
+        if isinstance(v, str) and all(32 <= ord(ch) < 127 and ch not in '"\\' for ch in v):
+            return E([], '"' + v + '"', STRING)
         self.bad(f'constant {v!r}', n)
 
     def e_Name(self, n, sc):
         if n.id in self.consts and sc.lookup(n.id) is None:
             c = self.consts[n.id]
+            if c is None:
+                self.bad(f'the constant parameter `{n.id}` = None is used as a value', n)
             return E([], ('true' if c else 'false') if isinstance(c, bool) else str(c), BOOL if isinstance(c, bool) else NAT)
         v = sc.lookup(n.id)
         if v is None:
@@ -336,17 +427,43 @@ class FunctionTranslator:
         return E([], lname(n.id), v.ty)
 
     def e_Attribute(self, n, sc):
+        snap = self.ntemp
         r = self.expr(n.value, sc)
-        if r.ty[0] != 'Rec' or n.attr not in self.records[r.ty[1]]['fields']:
+        if r.ty[0] == 'Rec' and n.attr not in self.records[r.ty[1]]['fields']:
+            self.ntemp = snap
+            return self.method_call(n, n.value, n.attr, [], sc, prop=True)      # a `@property` that is itself a target
+        if r.ty[0] != 'Rec':
             self.bad(f'attribute `.{n.attr}`', n)
         f = self.records[r.ty[1]]['fields'][n.attr]
+        if 'args' in f:
+            self.bad(f'the function field `.{n.attr}` used other than by calling it', n)
         code = f'{r.code}{f["lean"]}' if f['lean'].startswith('.') else f'({f["lean"]} {r.code})'
         return E(r.pre, code, self.ty(f['type']))
 
     def e_Subscript(self, n, sc):
-        if isinstance(n.slice, (ast.Slice, ast.Tuple)):
-            self.bad('slice / tuple subscript', n)
-        a, i = self.expr(n.value, sc), self.expr(n.slice, sc)
+        if isinstance(n.slice, ast.Slice):
+            sl = n.slice
+            a = self.expr(n.value, sc)
+            if a.ty[0] == 'List' and sl.upper is None and sl.step is None and isinstance(sl.lower, ast.Constant) \
+                    and type(sl.lower.value) is int and sl.lower.value >= 0:
+                return E(a.pre, f'(List.drop {sl.lower.value} {a.code})', a.ty)      # `xs[k:]`, k a literal >= 0
+            self.bad('slice other than `xs[k:]` with a literal k >= 0', n)
+        if isinstance(n.slice, ast.Tuple):
+            self.bad('tuple subscript', n)
+        if isinstance(n.slice, ast.Constant) and type(n.slice.value) is int:
+            a = self.expr(n.value, sc)
+            if a.ty[0] == 'Pair':
+                if n.slice.value not in (0, 1):
+                    self.bad('component of a pair other than [0] / [1]', n)
+                return E(a.pre, f'{a.code}.{n.slice.value + 1}' if re.fullmatch(r'[\w«».]+', a.code) else f'({a.code}).{n.slice.value + 1}',
+                         a.ty[1 + n.slice.value])
+            a_done = a
+        else:
+            a_done = None
+        a, i = a_done or self.expr(n.value, sc), self.expr(n.slice, sc)
+        if a.ty[0] == 'Dict' and i.ty == a.ty[1]:
+            t = self.temp()
+            return E(a.pre + i.pre + [S('let', [(0, f'Fca.Gen.dictGet {a.code} {i.code}')], t, '←')], t, a.ty[2])
         if a.ty[0] != 'List' or i.ty != NAT:
             self.bad(f'subscript of {self.show(a.ty)} by {self.show(i.ty)}', n)
         t = self.temp()
@@ -356,6 +473,8 @@ class FunctionTranslator:
         x = self.expr(n.operand, sc)
         if isinstance(n.op, ast.Not) and x.ty == BOOL:
             return E(x.pre, f'(!{x.code})', BOOL)
+        if isinstance(n.op, ast.Not) and x.ty[0] == 'List':
+            return E(x.pre, f'(List.isEmpty {x.code})', BOOL)          # `not xs`: a list is falsy iff it is empty
         self.bad(f'unary `{type(n.op).__name__}` on {self.show(x.ty)}', n)
 
     def e_BoolOp(self, n, sc):
@@ -382,6 +501,10 @@ class FunctionTranslator:
         pre, o = a.pre + b.pre, type(n.op)
         if o in (ast.BitAnd, ast.BitOr) and a.ty == BOOL and b.ty == BOOL:
             return E(pre, f'({a.code} {"&&" if o is ast.BitAnd else "||"} {b.code})', BOOL)
+        if o in (ast.BitAnd, ast.BitOr, ast.Sub) and a.ty[0] in ('Set', 'FSet') and b.ty[0] in ('Set', 'FSet') \
+                and a.ty[1] == b.ty[1] and self.eq_type(a.ty[1]):
+            fn = {ast.BitAnd: 'setInter', ast.BitOr: 'setUnion', ast.Sub: 'setDiff'}[o]
+            return E(pre, f'(Fca.Gen.{fn} {a.code} {b.code})', a.ty)       # the result has the class of the LEFT operand
         if o is ast.Add and a.ty == NAT and b.ty == NAT:
             return E(pre, f'({a.code} + {b.code})', NAT)
         if o is ast.Add and a.ty[0] == 'List' and a.ty == b.ty:
@@ -406,14 +529,37 @@ class FunctionTranslator:
         nt = self.none_test(n, sc)
         if nt:
             return E([], f'(Option.{"isNone" if nt[1] else "isSome"} {lname(nt[0])})', BOOL)
+        if isinstance(n.ops[0], (ast.Eq, ast.NotEq)) and isinstance(n.comparators[0], ast.Constant) \
+                and n.comparators[0].value == 0 and type(n.comparators[0].value) is int and isinstance(n.left, ast.Call) \
+                and isinstance(n.left.func, ast.Name) and n.left.func.id == 'len' and sc.lookup('len') is None \
+                and len(n.left.args) == 1 and not n.left.keywords:
+            snap = self.ntemp
+            x = self.expr(n.left.args[0], sc)
+            if x.ty[0] in ('Set', 'FSet'):
+                # `len(s) == 0`: emptiness does not depend on order / repetition (any other use of `len(s)` is refused)
+                c = f'(List.isEmpty {x.code})'
+                return E(x.pre, c if isinstance(n.ops[0], ast.Eq) else f'(!{c})', BOOL)
+            self.ntemp = snap
         a, b, o = self.expr(n.left, sc), self.expr(n.comparators[0], sc), type(n.ops[0])
         pre = a.pre + b.pre
-        if o in (ast.Eq, ast.NotEq) and a.ty == b.ty and 'Rec' not in str(a.ty):
+        if o in (ast.Eq, ast.NotEq) and a.ty == b.ty and self.eq_type(a.ty):
             return E(pre, f'({a.code} {"==" if o is ast.Eq else "!="} {b.code})', BOOL)
+        if o in (ast.In, ast.NotIn) and b.ty[0] in ('List', 'Set', 'FSet') and b.ty[1] == a.ty and self.eq_type(a.ty):
+            c = f'(List.contains {b.code} {a.code})'
+            return E(pre, c if o is ast.In else f'(!{c})', BOOL)
         sym = {ast.Lt: '<', ast.LtE: '≤', ast.Gt: '>', ast.GtE: '≥'}.get(o)
-        if sym and a.ty == NAT and b.ty == NAT:
+        if sym and a.ty == b.ty and a.ty in (NAT, NUM):
             return E(pre, f'(decide ({a.code} {sym} {b.code}))', BOOL)
+        if o in (ast.Eq, ast.NotEq) and a.ty[0] in ('Set', 'FSet') and b.ty[0] in ('Set', 'FSet') and a.ty[1] == b.ty[1] \
+                and self.eq_type(a.ty[1]):
+            c = f'(Fca.Gen.setEq {a.code} {b.code})'
+            return E(pre, c if o is ast.Eq else f'(!{c})', BOOL)
         self.bad(f'comparison `{o.__name__}` on {self.show(a.ty)}, {self.show(b.ty)}', n)
+
+    def eq_type(self, t):
+        """types on which Python `==` is structural equality and Lean has `BEq` (no records, sets, dicts)"""
+        return t[0] in ('Bool', 'Nat', 'String', 'Num') or t[0] in ('List', 'Option') and self.eq_type(t[1]) \
+            or t[0] == 'Pair' and self.eq_type(t[1]) and self.eq_type(t[2])
 
     def cond_expr(self, test, sc, mk_then, mk_else, node):
         """shared by `x if c else y`: returns E; mk_* : scope -> E"""
@@ -447,6 +593,9 @@ class FunctionTranslator:
         return E(c.pre + [S('let', lines, t, '←')], t, a.ty)
 
     def e_IfExp(self, n, sc):
+        v = self.static_eval(n.test)
+        if v is not None:
+            return self.expr(n.body if v else n.orelse, sc)       # the dead branch is not translated
         return self.cond_expr(n.test, sc, lambda s: self.expr(n.body, s), lambda s: self.expr(n.orelse, s), n)
 
     def e_List(self, n, sc):
@@ -472,6 +621,22 @@ class FunctionTranslator:
             return f'({self.pattern(tgt.elts[0], ty[1], sc, node)}, {self.pattern(tgt.elts[1], ty[2], sc, node)})'
         self.bad(f'target pattern does not match {self.show(ty)}', node)
 
+    def e_SetComp(self, n, sc):
+        """`{e for x in xs if c}`: the list comprehension, read as a set (a list up to membership)"""
+        r = self.e_ListComp(n, sc)
+        if not self.eq_type(r.ty[1]):
+            self.bad('set of elements without `==`', n)
+        return E(r.pre, r.code, ('Set', r.ty[1]))
+
+    def e_Set(self, n, sc):
+        xs = [self.expr(v, sc) for v in n.elts]
+        if not xs or any(x.ty != xs[0].ty for x in xs) or not self.eq_type(xs[0].ty):
+            self.bad('set display that is empty / of mixed types / of elements without `==`', n)
+        return E([s_ for x in xs for s_ in x.pre], '[' + ', '.join(x.code for x in xs) + ']', ('Set', xs[0].ty))
+
+    def unit_cfg(self):
+        return units(self.cfg)[self.target.get('unit', '')]
+
     def e_ListComp(self, n, sc):
         if len(n.generators) != 1:
             self.bad('comprehension with several `for` clauses', n)
@@ -487,9 +652,21 @@ class FunctionTranslator:
         body = self.expr(n.elt, inner)
         if any(c.ty != BOOL for c in conds):
             self.bad('comprehension condition is not a bool', n)
+        if conds and (body.pre or any(c.pre for c in conds)):
+            # conditions left to right (the first false one ends the element), then the element; the first exception wins
+            t = self.temp()
+            lines = [(0, f'Fca.Gen.filterMapM (fun {pat} => do')]
+            depth = 2
+            for c in conds:
+                lines += flat(c.pre, depth) + [(depth, f'if {c.code} then'), ]
+                depth += 1
+            lines += flat(body.pre, depth) + [(depth, f'pure (some {body.code})')]
+            for k in range(len(conds)):
+                depth -= 1
+                lines += [(depth, 'else pure none')]
+            lines[-1] = (lines[-1][0], lines[-1][1] + f') {it.code}')
+            return E(it.pre + [S('let', lines, t, '←')], t, List_(body.ty))
         if conds:
-            if body.pre or any(c.pre for c in conds):
-                self.bad('comprehension with `if` whose element or condition may raise', n)
             c = ' && '.join(x.code for x in conds)
             return E(it.pre, f'(List.filterMap (fun {pat} => if {c} then some {body.code} else none) {it.code})',
                      List_(body.ty))
@@ -505,20 +682,42 @@ class FunctionTranslator:
         f = n.func
         if isinstance(f, ast.Name) and sc.lookup(f.id) is None:
             args = n.args
-            if f.id == 'isinstance' and self.static_eval(n) is False:
-                return E([], 'false', BOOL)
+            if f.id == 'isinstance' and self.static_eval(n) is not None:
+                return E([], 'true' if self.static_eval(n) else 'false', BOOL)
+            if f.id in ('all', 'any') and len(args) == 1 and isinstance(args[0], ast.GeneratorExp):
+                return self.quantifier(f.id, args[0], sc)
             xs = [self.expr(a, sc) for a in args]
             pre = [s for x in xs for s in x.pre]
             tys = [x.ty for x in xs]
             one = xs[0].code if xs else None
             if f.id == 'len' and len(xs) == 1 and tys[0][0] == 'List':
                 return E(pre, f'(Fca.Gen.len {one})', NAT)
+            if f.id == 'list' and len(xs) == 1 and tys[0][0] == 'List':
+                return E(pre, one, tys[0])               # a copy: indistinguishable without mutation (A5)
+            if f.id == 'list' and len(xs) == 1 and tys[0][0] in ('Set', 'FSet'):
+                # the iteration order of a set is unspecified: it is the unit's order parameter (A10)
+                o = self.unit_cfg().get('order_param')
+                if not o or tys[0][1] != NAT:
+                    self.bad('`list(s)` of a set: the unit of this target declares no iteration-order parameter', n)
+                return E(pre, f'({o} {one})', List_(tys[0][1]))
+            if f.id == 'frozenset' and len(xs) == 1 and tys[0][0] in ('Set', 'FSet', 'List') and self.eq_type(tys[0][1]):
+                return E(pre, one, ('FSet', tys[0][1]))
+            if f.id == 'copy' and len(xs) == 1 and tys[0][0] in ('Set', 'FSet', 'List') and self.copy_ok:
+                return E(pre, one, tys[0])               # `copy.copy`: a shallow copy (A5)
+            if f.id == 'len' and len(xs) == 1 and tys[0][0] == 'Rec' and not pre:
+                return self.method_call(n, args[0], '__len__', [], sc)        # `len(obj)` is `type(obj).__len__(obj)`
+            if f.id == 'set' and len(xs) == 1 and tys[0][0] == 'List' and self.eq_type(tys[0][1]):
+                return E(pre, f'(Fca.Gen.pySet {one})', ('Set', tys[0][1]))
             if f.id in ('all', 'any') and tys == [List_(BOOL)]:
                 return E(pre, f'(Fca.Gen.py{f.id.capitalize()} {one})', BOOL)
             if f.id == 'sum' and tys == [List_(BOOL)]:
                 return E(pre, f'(Fca.Gen.pySumB {one})', NAT)
             if f.id == 'sum' and tys == [List_(NAT)]:
                 return E(pre, f'(Fca.Gen.pySum {one})', NAT)
+            if f.id == 'int' and tys == [NAT]:
+                return E(pre, one, NAT)
+            if f.id in ('min', 'max') and tys == [NUM, NUM]:
+                return E(pre, f'(Fca.Gen.py{f.id.capitalize()}2 {xs[0].code} {xs[1].code})', NUM)
             if f.id == 'int' and tys == [BOOL]:
                 return E(pre, f'(Fca.Gen.intOfBool {one})', NAT)
             if f.id == 'bool' and tys == [BOOL]:
@@ -538,64 +737,121 @@ class FunctionTranslator:
                 if x.ty == self.ty(ctor['arg']):
                     return E(x.pre, f'({ctor["lean"]} {x.code})', r.ty)
             self.bad('constructor call', n)
-        if isinstance(f, ast.Attribute) and isinstance(f.value, ast.Name) and f.value.id == 'self':
-            return self.self_call(n, f, sc)
+        if isinstance(f, ast.Attribute):
+            snap = self.ntemp
+            r = self.expr(f.value, sc)
+            fld = self.records[r.ty[1]]['fields'].get(f.attr) if r.ty[0] == 'Rec' else None
+            if fld is not None and 'args' in fld:
+                # a field holding a function (A11: pure, total, of the declared type): an ordinary application
+                xs = [self.expr(a, sc) for a in n.args]
+                if [x.ty for x in xs] != [self.ty(t) for t in fld['args']]:
+                    self.bad(f'call of the function field `.{f.attr}` with arguments of other than the declared types', n)
+                code = f'({r.code}{fld["lean"]} ' + ' '.join(x.code for x in xs) + ')'
+                return E(r.pre + [s_ for x in xs for s_ in x.pre], code, self.ty(fld['ret']))
+            self.ntemp = snap
+            return self.method_call(n, f.value, f.attr, n.args, sc)
         self.bad('call of `' + ast.unparse(f) + '`', n)
 
-    def mro(self):
-        """the receiver's class and its ancestors (single inheritance inside the source file)"""
-        chain, c = [], self.target.get('self_class') or self.target['qualname'].rsplit('.', 1)[0]
-        while c in self.classes and c not in chain:
+    def class_chain(self, cls, classes):
+        """`cls` and its ancestors (single inheritance inside one source file); None when a class has several bases"""
+        chain, c = [], cls
+        while c in classes and c not in chain:
             chain.append(c)
-            bases = self.classes[c].bases
+            bases = classes[c].bases
             if len(bases) > 1:
                 return None
             c = bases[0].id if bases and isinstance(bases[0], ast.Name) else None
         return chain
 
-    def self_call(self, n, f, sc):
-        """`self.m(args)`: `m` is looked up along the receiver's classes; it must itself be a translated target"""
-        chain = self.mro()
+    def quantifier(self, which, g, sc):
+        """`all(e for x in xs)` / `any(…)` over a generator: evaluation STOPS at the first False / True element, so a
+        later element that would raise is not evaluated (unlike `all([…])`)"""
+        if len(g.generators) != 1 or g.generators[0].ifs or g.generators[0].is_async:
+            self.bad('generator with several `for` clauses / an `if`', g)
+        it = self.expr(g.generators[0].iter, sc)
+        if it.ty[0] != 'List':
+            self.bad(f'iteration over {self.show(it.ty)}', g)
+        inner = Scope(sc, sc.frame)
+        pat = self.pattern(g.generators[0].target, it.ty[1], inner, g)
+        body = self.expr(g.elt, inner)
+        if body.ty != BOOL:
+            self.bad(f'`{which}` over non-bool elements', g)
+        if not body.pre:
+            return E(it.pre, f'(List.{which} {it.code} (fun {pat} => {body.code}))', BOOL)
+        t = self.temp()
+        lines = [(0, f'Fca.Gen.{which}M (fun {pat} => do')] + flat(body.pre, 2) + [(2, f'pure {body.code}) {it.code}')]
+        return E(it.pre + [S('let', lines, t, '←')], t, BOOL)
+
+    def mro(self):
+        """the receiver's class and its ancestors (single inheritance inside the source file)"""
+        return self.class_chain(self.target.get('self_class') or self.target['qualname'].rsplit('.', 1)[0], self.classes)
+
+    def method_call(self, n, recv, attr, args, sc, prop=False):
+        """`recv.m(args)` (or, with prop, the read of a `@property` `recv.m`): `recv` is `self` or an expression of a
+        record type whose Python class is declared (`"class"`, `"file"` of the record); `m` is looked up along that
+        class's single-inheritance chain; the method found must itself be a translated target for that receiver class"""
+        me = self.expr(recv, sc)
+        what = f'`{ast.unparse(recv)}.{attr}`'
+        if me.ty[0] != 'Rec':
+            self.bad(f'call of {what}: the receiver is not a record', n)
+        if isinstance(recv, ast.Name) and recv.id == 'self':
+            chain, classes, file = self.mro(), self.classes, self.target['file']
+        else:
+            rec = self.records[me.ty[1]]
+            if 'class' not in rec or 'file' not in rec:
+                self.bad(f'call of {what}: the record {me.ty[1]} declares no Python class', n)
+            file = rec['file']
+            classes = self.get_classes(file)
+            chain = self.class_chain(rec['class'], classes)
         if chain is None:
             self.bad('method call on a class with several bases', n)
-        owner = next((c for c in chain if any(isinstance(d, ast.FunctionDef) and d.name == f.attr
-                                              for d in self.classes[c].body)), None)
+        owner = next((c for c in chain if any(isinstance(d, ast.FunctionDef) and d.name == attr
+                                              for d in classes[c].body)), None)
         if owner is None:
-            self.bad(f'call of `self.{f.attr}`: no class of {chain} defines it', n)
+            self.bad(f'{what}: no class of {chain} defines it', n)
 
         def static(x):
-            if isinstance(x, ast.Constant) and isinstance(x.value, (bool, int)):
+            if isinstance(x, ast.Constant) and (x.value is None or isinstance(x.value, (bool, int))):
                 return True, x.value
             if isinstance(x, ast.Name) and x.id in self.consts and sc.lookup(x.id) is None:
                 return True, self.consts[x.id]
             return False, None
         for d in self.done:
-            if d['qualname'] != f'{owner}.{f.attr}' or len(n.args) > len(d['params']):
+            if d['qualname'] != f'{owner}.{attr}' or d['file'] != file or len(args) > len(d['params']) \
+                    or d['property'] != prop:
                 continue
             if d['recv'] != chain[0]:
                 continue             # translated for a receiver of another class
-            given = dict(zip(d['params'], n.args))
+            given = dict(zip(d['params'], args))
             if any((p not in given) or static(given[p]) != (True, c) for p, c in d['consts'].items()):
                 continue
-            me = self.expr(f.value, sc)
-            pre, codes = list(me.pre), [me.code]
+            extra = units(self.cfg)[d['unit']].get('extra_args')
+            if extra and units(self.cfg)[d['unit']].get('extra_params') != self.unit_cfg().get('extra_params'):
+                self.bad(f'{what}: the callee takes the extra parameter(s) `{extra}` of its unit, which this unit does not have', n)
+            pre, codes = list(me.pre), ([extra] if extra else []) + [me.code]
             for p in d['params']:
                 if p in d['consts']:
                     continue
+                want = d['types'][p]
                 if p in given:
                     x = self.expr(given[p], sc)
-                    if x.ty != d['types'][p]:
-                        self.bad(f'argument `{p}` of `self.{f.attr}` has type {self.show(x.ty)}, declared '
-                                 f'{self.show(d["types"][p])}', n)
+                    if want == ('Option', x.ty):
+                        x = E(x.pre, f'(some {x.code})', want)       # a value that is not None where None is allowed
+                    if x.ty != want:
+                        self.bad(f'argument `{p}` of {what} has type {self.show(x.ty)}, declared {self.show(want)}', n)
                     pre += x.pre
                     codes.append(x.code)
-                elif d['types'][p][0] == 'Option':
+                elif p in d['defaults']:
+                    c = d['defaults'][p]
+                    codes.append(('true' if c else 'false') if isinstance(c, bool) else str(c))
+                elif want[0] == 'Option':
                     codes.append('none')
                 else:
-                    self.bad(f'argument `{p}` of `self.{f.attr}` is omitted', n)
+                    self.bad(f'argument `{p}` of {what} is omitted', n)
             t = self.temp()
             return E(pre + [S('let', [(0, f'{NAMESPACE}.{d["lean"]} ' + ' '.join(codes))], t, '←')], t, d['ret'])
-        self.bad(f'call of `self.{f.attr}`: `{owner}.{f.attr}` (with these constant arguments) is not a translated target', n)
+        self.bad(f'{what}: `{owner}.{attr}` ' + ('(a property) ' if prop else '(with these constant arguments) ') +
+                 f'is not a translated target for a {chain[0]} receiver', n)
 
     # ---- statements
     def bind(self, e, pat, kind):
@@ -621,6 +877,13 @@ class FunctionTranslator:
                 return self.bind(e, lname(name), 'set')      # mutation of a variable of an enclosing block
             if sc.strict:
                 raise _Fallback()
+            if sc.tail:
+                # the rest of the function lives in this branch (`if x is None: …return` + rest): a shadowing `let`
+                # is seen by everything that can still read the name
+                mut = self.needs_mut(name, (node.lineno, node.col_offset), sc)
+                sc.vars[name] = Var(e.ty, mut, sc)
+                sc.assigned.append(name)
+                return self.bind(e, lname(name), 'letmut' if mut else 'let')
             self.bad(f'`{name}` (a parameter, or re-typed) is re-assigned inside a block that contains '
                      f'return/break/continue', node)
         if sc.strict and not own:
@@ -635,7 +898,24 @@ class FunctionTranslator:
         if len(n.targets) != 1:
             self.bad('chained assignment', n)
         tgt = n.targets[0]
+        if isinstance(tgt, ast.Name) and hasattr(n, 'aug_verdict'):
+            v = sc.lookup(tgt.id)
+            if not isinstance(v, Var) or v.ty[0] not in ('Set', 'FSet'):
+                self.bad('augmented assignment to other than a set', n)
+            if v.ty[0] == 'Set' and n.aug_verdict is not None:
+                raise n.aug_verdict           # an in-place update of a set that may be aliased (A5)
         if isinstance(tgt, ast.Name):
+            if isinstance(n.value, ast.List) and not n.value.elts:
+                decl = self.target.get('locals', {}).get(tgt.id)
+                if decl is None or self.ty(decl)[0] != 'List':
+                    self.bad(f'`{tgt.id} = []`: the element type is unknown (declare it under "locals")', n)
+                return self.assign_name(tgt.id, E([], f'([] : {self.show(self.ty(decl))})', self.ty(decl)), sc, n)
+            if isinstance(n.value, ast.Call) and isinstance(n.value.func, ast.Name) and n.value.func.id == 'set' \
+                    and not n.value.args and not n.value.keywords and sc.lookup('set') is None:
+                decl = self.target.get('locals', {}).get(tgt.id)
+                if decl is None or self.ty(decl)[0] != 'Set':
+                    self.bad(f'`{tgt.id} = set()`: the element type is unknown (declare it under "locals")', n)
+                return self.assign_name(tgt.id, E([], f'([] : {self.show(self.ty(decl))})', self.ty(decl)), sc, n)
             return self.assign_name(tgt.id, self.expr(n.value, sc), sc, n)
         if isinstance(tgt, ast.Tuple) and len(tgt.elts) == 2 and all(isinstance(x, ast.Name) for x in tgt.elts) \
                 and tgt.elts[0].id != tgt.elts[1].id:
@@ -655,7 +935,13 @@ class FunctionTranslator:
     def s_Return(self, n, sc):
         if n.value is None:
             self.bad('bare `return`', n)
+        if isinstance(n.value, ast.Constant) and n.value.value is None and self.ret[0] == 'Option':
+            return [S('raw', [(0, 'return none')])]
+        if isinstance(n.value, ast.List) and not n.value.elts and self.ret[0] == 'List':
+            return [S('raw', [(0, 'return []')])]
         e = self.expr(n.value, sc)
+        if self.ret == ('Option', e.ty):
+            e = E(e.pre, f'(some {e.code})', self.ret)
         if e.ty != self.ret:
             self.bad(f'returns {self.show(e.ty)}, declared {self.show(self.ret)}', n)
         return e.pre + [S('raw', [(0, f'return {e.code}')])]
@@ -725,6 +1011,8 @@ class FunctionTranslator:
 
     def if_native(self, n, sc, strict):
         name, c, ((s1, st1), (s2, st2)) = self.branches(n, sc, lambda: Scope(sc, sc.frame, block=True, strict=strict))
+        for s_, st_ in ((s1, st1), (s2, st2)):
+            s_.tail = bool(getattr(n, 'tail_orelse', False)) and st_ is n.orelse and sc.tail
         b1, b2 = self.block(st1, s1), self.block(st2, s2)
         self.leave(s1, sc)
         self.leave(s2, sc)
@@ -783,6 +1071,22 @@ class FunctionTranslator:
             if isinstance(x, ast.Name) and x.id in self.consts:
                 return True, self.consts[x.id]
             return False, None
+        if isinstance(n, ast.Compare) and len(n.ops) == 1 and isinstance(n.ops[0], (ast.Eq, ast.NotEq, ast.Is, ast.IsNot)):
+            # `type(a) == type(b)` for two record parameters of the same Python class (A2: a record-typed value is an
+            # instance of exactly the record's class)
+            def cls_of(x):
+                if isinstance(x, ast.Call) and isinstance(x.func, ast.Name) and x.func.id == 'type' and not x.keywords \
+                        and len(x.args) == 1 and isinstance(x.args[0], ast.Name) and x.args[0].id in self.target['params'] \
+                        and x.args[0].id not in getattr(self, 'rebound', ()):
+                    t = self.ty(self.target['params'][x.args[0].id])
+                    if t[0] == 'Rec':
+                        if x.args[0].id == 'self':
+                            return self.target.get('self_class') or self.target['qualname'].rsplit('.', 1)[0]
+                        return self.records[t[1]].get('class')
+                return None
+            ca, cb = cls_of(n.left), cls_of(n.comparators[0])
+            if ca is not None and cb is not None:
+                return (ca == cb) == isinstance(n.ops[0], (ast.Eq, ast.Is))
         if isinstance(n, ast.UnaryOp) and isinstance(n.op, ast.Not):
             v = self.static_eval(n.operand)
             return None if v is None else not v
@@ -818,6 +1122,16 @@ class FunctionTranslator:
                 # assumption A1: a declared list / int / bool is not a slice (re-binding it cannot make it one either:
                 # no expression of the translated subset denotes a slice)
                 return False
+        if isinstance(n, ast.Call) and isinstance(n.func, ast.Name) and n.func.id == 'isinstance' and not n.keywords \
+                and len(n.args) == 2 and isinstance(n.args[0], ast.Name) and isinstance(n.args[1], ast.Name) \
+                and n.args[1].id == 'Number' and self.number_ok and n.args[0].id in self.target['params'] \
+                and n.args[0].id not in getattr(self, 'rebound', ()):
+            t = self.ty(self.target['params'][n.args[0].id])
+            t = t[1] if t[0] == 'Option' else t
+            if t[0] in ('Pair', 'List', 'Set'):
+                return False          # assumption A1: a declared tuple / list / set is not a `numbers.Number`
+            if t[0] in ('Num', 'Nat'):
+                return True
         return None
 
     def fold(self, stmts):
@@ -841,6 +1155,126 @@ class FunctionTranslator:
             out.append(s)
         return out
 
+    # ---- pre-pass: `try … except E: raise E(…)` and `x.append(e)` on an un-aliased local list
+    ERR_CLASSES = ('KeyError', 'IndexError', 'AssertionError', 'ValueError', 'TypeError')
+
+    def harmless_message(self, x):
+        """an exception argument whose evaluation cannot raise or have effects: a string constant, or an f-string of
+        plain local names without conversions / format specs"""
+        if isinstance(x, ast.Constant) and isinstance(x.value, str):
+            return True
+        return isinstance(x, ast.JoinedStr) and all(
+            isinstance(v, ast.Constant) or isinstance(v, ast.FormattedValue) and isinstance(v.value, ast.Name)
+            and v.conversion == -1 and v.format_spec is None for v in x.values)
+
+    def untry(self, stmts):
+        """`try: B  except E [as e]: raise E(message)` (one handler, no else/finally) is `B` as far as exception CLASSES
+        go: an `E` raised in B leaves as an `E` (only its message changes, and messages are not modelled); every other
+        exception propagates unchanged.  The `try` is replaced by its body (a comment is left)."""
+        out = []
+        for s_ in stmts:
+            for fld in ('body', 'orelse'):
+                if isinstance(s_, (ast.For, ast.If, ast.Try)) and getattr(s_, fld, None):
+                    setattr(s_, fld, self.untry(getattr(s_, fld)))
+            if isinstance(s_, ast.Try):
+                h = s_.handlers[0] if len(s_.handlers) == 1 else None
+                ok = h is not None and not s_.orelse and not s_.finalbody and isinstance(h.type, ast.Name) \
+                    and h.type.id in self.ERR_CLASSES and len(h.body) == 1 and isinstance(h.body[0], ast.Raise) \
+                    and h.body[0].cause is None and isinstance(h.body[0].exc, ast.Call) \
+                    and isinstance(h.body[0].exc.func, ast.Name) and h.body[0].exc.func.id == h.type.id \
+                    and not h.body[0].exc.keywords and all(self.harmless_message(a) for a in h.body[0].exc.args)
+                if not ok:
+                    self.bad('`try` other than `try: … except E: raise E(message)`', s_)
+                if h.name and any(isinstance(x, ast.Name) and x.id == h.name for b in s_.body for x in ast.walk(b)):
+                    self.bad(f'`{h.name}` (bound by `except … as`) is also a name of the `try` body', s_)
+                out.append(Dead(f'`try: … except {h.type.id}: raise {h.type.id}(…)`: the class of the exception is unchanged, '
+                                f'the body is translated in place', s_))
+                out.extend(s_.body)
+            else:
+                out.append(s_)
+        return out
+
+    def unappend(self, fn):
+        """`x.append(e)` as a statement becomes `x = x + [e]` when `x` is a local list nobody else can see (A5):
+        `x` is not a parameter, every binding of `x` is a fresh list (display, comprehension, `list(…)`, `+`, `*`), and
+        every other read of `x` comes after the last `x.append` and outside every loop that contains one."""
+        apps = {}
+        for st in ast.walk(fn):
+            if isinstance(st, ast.Expr) and isinstance(st.value, ast.Call) and isinstance(st.value.func, ast.Attribute) \
+                    and st.value.func.attr == 'append' and isinstance(st.value.func.value, ast.Name):
+                if len(st.value.args) != 1 or st.value.keywords:
+                    self.bad('`append` with other than one argument', st)
+                apps.setdefault(st.value.func.value.id, []).append(st)
+            elif isinstance(st, ast.AugAssign):
+                # `x |= e` / `x &= e` / `x -= e` update a `set` IN PLACE (the same discipline as `append`), but only
+                # re-bind a `frozenset`; which one `x` is, is known when the statement is translated (s_Assign)
+                if not (isinstance(st.op, (ast.BitOr, ast.BitAnd, ast.Sub)) and isinstance(st.target, ast.Name)):
+                    self.bad('augmented assignment other than `x |= e`, `x &= e`, `x -= e` on a set', st)
+                apps.setdefault(st.target.id, []).append(st)
+        if not apps:
+            return
+        params = {a.arg for a in fn.args.args}
+        loops = [l for l in ast.walk(fn) if isinstance(l, ast.For)]
+        deferred = {}
+        for x, sts in apps.items():
+            try:
+                self.alias_discipline(fn, x, sts, params, loops)
+            except Untranslatable as e:
+                if all(isinstance(st, ast.AugAssign) for st in sts):
+                    deferred[x] = e          # harmless if `x` turns out to be a frozenset
+                else:
+                    raise
+        self.rewrite_mutations(fn, apps, deferred)
+
+    def alias_discipline(self, fn, x, sts, params, loops):
+        if x in params:
+            self.bad(f'`{x}.append` / `{x} |= …`: `{x}` is a parameter (the caller could see the mutation)', sts[0])
+        recv_ids = {id(st.value.func.value) for st in sts if isinstance(st, ast.Expr)}
+        last = max((st.lineno, st.col_offset) for st in sts)
+        app_loops = [l for l in loops if any(any(st is y for y in ast.walk(l)) for st in sts)]
+        for a in ast.walk(fn):
+            if isinstance(a, (ast.Assign, ast.For, ast.comprehension)):
+                tg = a.targets if isinstance(a, ast.Assign) else [a.target]
+                if any(isinstance(t, ast.Name) and t.id == x for t0 in tg for t in ast.walk(t0)):
+                    fresh = isinstance(a, ast.Assign) and len(a.targets) == 1 and isinstance(a.targets[0], ast.Name) and (
+                        isinstance(a.value, (ast.List, ast.ListComp))
+                        or isinstance(a.value, ast.BinOp) and isinstance(a.value.op, (ast.Add, ast.Mult, ast.BitOr, ast.BitAnd))
+                        or isinstance(a.value, ast.Call) and isinstance(a.value.func, ast.Name)
+                        and a.value.func.id in ('list', 'set'))
+                    if not fresh:
+                        self.bad(f'`{x}.append` / `{x} |= …`: `{x}` is not always bound to a fresh list / set', a)
+            if isinstance(a, ast.Name) and a.id == x and isinstance(a.ctx, ast.Load) and id(a) not in recv_ids:
+                if (a.lineno, a.col_offset) <= last or any(any(a is y for y in ast.walk(l)) for l in app_loops):
+                    self.bad(f'`{x}` is read where a later `{x}.append` / `{x} |= …` could be seen through an alias', a)
+
+    def rewrite_mutations(self, fn, apps, deferred):
+        class R(ast.NodeTransformer):
+            def visit_Expr(self_, st):
+                if any(st is y for ys in apps.values() for y in ys):
+                    x = st.value.func.value.id
+                    new = ast.Assign(targets=[ast.Name(id=x, ctx=ast.Store())],
+                                     value=ast.BinOp(left=ast.Name(id=x, ctx=ast.Load()), op=ast.Add(),
+                                                     right=ast.List(elts=[st.value.args[0]], ctx=ast.Load())))
+                    ast.copy_location(new, st)
+                    for y in ast.walk(new):
+                        if not hasattr(y, 'lineno'):
+                            ast.copy_location(y, st)
+                    new.end_lineno, new.end_col_offset = st.end_lineno, st.end_col_offset
+                    return new
+                return st
+
+            def visit_AugAssign(self_, st):
+                new = ast.Assign(targets=[ast.Name(id=st.target.id, ctx=ast.Store())],
+                                 value=ast.BinOp(left=ast.Name(id=st.target.id, ctx=ast.Load()), op=st.op, right=st.value))
+                new.aug_verdict = deferred.get(st.target.id)
+                ast.copy_location(new, st)
+                for y in ast.walk(new):
+                    if not hasattr(y, 'lineno'):
+                        ast.copy_location(y, st)
+                new.end_lineno, new.end_col_offset = st.end_lineno, st.end_col_offset
+                return new
+        R().visit(fn)
+
     def s_Dead(self, n, sc):
         return [S('raw', [(0, '-- ' + n.text)])]
 
@@ -854,6 +1288,7 @@ class FunctionTranslator:
                 s2 = ast.If(test=s.test, body=s.body, orelse=stmts[k + 1:])
                 ast.copy_location(s2, s)
                 s2.end_lineno, s2.end_col_offset = stmts[-1].end_lineno, stmts[-1].end_col_offset
+                s2.tail_orelse = True
                 out.extend(self.s_If(s2, sc))
                 break
             m = getattr(self, 's_' + type(s).__name__, None)
@@ -889,17 +1324,21 @@ class FunctionTranslator:
         defaults = [None] * (len(names) - len(a.defaults)) + list(a.defaults)
         top = Scope(None, 0)
         sig = []
-        self.pnames, self.ptypes = [], {}
+        self.pnames, self.ptypes, self.defaults = [], {}, {}
         for nm, d in zip(names, defaults):
             if nm in self.consts:
                 c = self.consts[nm]
-                if not isinstance(c, (bool, int)) or (not isinstance(c, bool) and c < 0):
-                    self.bad(f'constant for `{nm}` is not a bool / non-negative int', fn)
+                if c is not None and (not isinstance(c, (bool, int)) or (not isinstance(c, bool) and c < 0)):
+                    self.bad(f'constant for `{nm}` is not None / a bool / a non-negative int', fn)
                 continue
             t = self.ty(tg['params'][nm])
             is_none_default = isinstance(d, ast.Constant) and d.value is None
             if d is not None and not is_none_default:
-                self.bad(f'default value of `{nm}` other than None', fn)
+                ok = isinstance(d, ast.Constant) and (isinstance(d.value, bool) and t == BOOL or
+                                                      type(d.value) is int and d.value >= 0 and t == NAT)
+                if not ok:
+                    self.bad(f'default value of `{nm}` other than None / a bool / a non-negative int of the declared type', fn)
+                self.defaults[nm] = d.value
             if is_none_default and t[0] != 'Option':
                 self.bad(f'`{nm}` defaults to None but is not declared Option', fn)
             top.vars[nm] = Var(t, False, top)
@@ -915,16 +1354,27 @@ class FunctionTranslator:
                                                   for d in self.classes[c].body)), None)
             if owner != cls:
                 self.bad(f'`{meth}` of a {tg["self_class"]} receiver resolves to {owner}.{meth}, not to {cls}.{meth}', fn)
+        fn.body = self.untry(fn.body)
+        self.unappend(fn)
         fn.body = self.fold(fn.body)
         self.find_nested(fn)
         if not self.terminates(fn.body):
             self.bad('the function may fall off its end (returns None)', fn)
         body = self.block(fn.body, top)
-        head = f'def {tg["lean"]} ' + ' '.join(sig) + f' : Except Fca.PyErr {self.show(self.ret, False)} := do'
+        tps = []
+        for t_ in list(self.ptypes.values()) + [self.ret]:
+            for r_ in re.findall(r"'Rec', '(\w+)'", repr(t_)):
+                tp = self.records[r_].get('tparams')
+                if tp and tp not in tps:
+                    tps.append(tp)
+        if self.unit_cfg().get('extra_params'):
+            tps.append(self.unit_cfg()['extra_params'])
+        head = f'def {tg["lean"]} ' + ' '.join(tps + sig) + f' : Except Fca.PyErr {self.show(self.ret, False)} := do'
         return [head] + render(body, 1)
 
 
-BUILTINS_USED = {'len', 'all', 'any', 'sum', 'int', 'bool', 'range', 'zip', 'enumerate', 'isinstance', 'slice'}
+BUILTINS_USED = {'frozenset', 'type', 'min', 'max', 'len', 'all', 'any', 'sum', 'int', 'bool', 'range', 'zip', 'enumerate', 'isinstance', 'slice', 'list', 'set',
+                 'KeyError', 'IndexError', 'AssertionError', 'ValueError', 'TypeError'}
 
 
 def module_level_names(tree):
@@ -939,23 +1389,39 @@ def module_level_names(tree):
     return out
 
 
-def find_function(tree, qualname):
+def find_function(tree, qualname, prop=False):
+    """the FunctionDef of `qualname`; with prop: the getter of the `@property` of that name (its `@name.setter /
+    .deleter` companions are ignored: the translated code only reads the property)"""
     node = tree
-    for part in qualname.split('.'):
+    parts = qualname.split('.')
+    for k, part in enumerate(parts):
         nxt = [c for c in node.body if isinstance(c, (ast.ClassDef, ast.FunctionDef, ast.AsyncFunctionDef))
                and c.name == part]
+        if prop and k == len(parts) - 1:
+            def is_companion(c):
+                return isinstance(c, ast.FunctionDef) and len(c.decorator_list) == 1 \
+                    and isinstance(c.decorator_list[0], ast.Attribute) and isinstance(c.decorator_list[0].value, ast.Name) \
+                    and c.decorator_list[0].value.id == part and c.decorator_list[0].attr in ('setter', 'deleter')
+            nxt = [c for c in nxt if not is_companion(c)]
         if len(nxt) != 1:
             raise Untranslatable(f'`{qualname}` not found (or defined more than once)')
         node = nxt[0]
     if not isinstance(node, ast.FunctionDef):
         raise Untranslatable(f'`{qualname}` is not a plain function')
-    if any(not (isinstance(d, ast.Name) and d.id in ('staticmethod', 'abstractmethod')) for d in node.decorator_list):
+    decos = [d.id if isinstance(d, ast.Name) else None for d in node.decorator_list]
+    if prop:
+        if decos != ['property']:
+            raise Untranslatable(f'`{qualname}` is not a plain `@property`')
+    elif any(d not in ('staticmethod', 'abstractmethod') for d in decos):
         raise Untranslatable(f'`{qualname}` is decorated')
     return node
 
 
 def load_config(path=TARGETS):
-    return json.load(open(path))
+    cfg = json.load(open(path))
+    TVARS.clear()
+    TVARS.update(cfg.get('tvars', {}))
+    return cfg
 
 
 def translate_all(cfg=None, root=None):
@@ -963,20 +1429,43 @@ def translate_all(cfg=None, root=None):
     cfg = cfg or load_config()
     root = root or repo()
     trees, done, blocks, errors, order = {}, [], {}, {}, []
+
+    def get_tree(file):
+        if file not in trees:
+            try:
+                trees[file] = ast.parse(open(os.path.join(root, file)).read())
+            except (OSError, SyntaxError) as e:
+                raise Untranslatable(f'cannot parse {file}: {type(e).__name__}')
+        return trees[file]
+
+    def get_classes(file):
+        return {c.name: c for c in get_tree(file).body if isinstance(c, ast.ClassDef)}
     for tg in cfg['targets']:
         order.append(tg['lean'])
         try:
-            if tg['file'] not in trees:
-                try:
-                    trees[tg['file']] = ast.parse(open(os.path.join(root, tg['file'])).read())
-                except (OSError, SyntaxError) as e:
-                    raise Untranslatable(f'cannot parse {tg["file"]}: {type(e).__name__}')
-            tree = trees[tg['file']]
-            classes = {c.name: c for c in tree.body if isinstance(c, ast.ClassDef)}
+            tree = get_tree(tg['file'])
+            classes = get_classes(tg['file'])
             shadowed = BUILTINS_USED & module_level_names(tree)
             if shadowed:
                 raise Untranslatable(f'{tg["file"]} re-binds the builtin name(s) {sorted(shadowed)} at module level')
-            ft = FunctionTranslator(find_function(tree, tg['qualname']), tg, cfg, done, classes)
+            ft = FunctionTranslator(find_function(tree, tg['qualname'], bool(tg.get('property'))), tg, cfg, done, classes,
+                                    get_classes)
+            def imported_once(name, module):
+                return sum(1 for s_ in tree.body for a_ in getattr(s_, 'names', [])
+                           if isinstance(s_, (ast.Import, ast.ImportFrom)) and (a_.asname or a_.name) == name) == 1 \
+                    and any(isinstance(s_, ast.ImportFrom) and s_.module == module and s_.level == 0
+                            and any(a_.name == name and a_.asname is None for a_ in s_.names) for s_ in tree.body) \
+                    and name not in {x.id for s_ in tree.body if not isinstance(s_, (ast.Import, ast.ImportFrom, ast.ClassDef, ast.FunctionDef))
+                                     for x in ast.walk(s_) if isinstance(x, ast.Name) and isinstance(x.ctx, ast.Store)} \
+                    and not any(isinstance(s_, (ast.ClassDef, ast.FunctionDef)) and s_.name == name for s_ in tree.body)
+            ft.copy_ok = imported_once('copy', 'copy')
+            ft.number_ok = sum(1 for s_ in tree.body for a_ in getattr(s_, 'names', [])
+                               if isinstance(s_, (ast.Import, ast.ImportFrom)) and (a_.asname or a_.name) == 'Number') == 1 \
+                and any(isinstance(s_, ast.ImportFrom) and s_.module == 'numbers' and s_.level == 0
+                        and any(a_.name == 'Number' and a_.asname is None for a_ in s_.names) for s_ in tree.body) \
+                and 'Number' not in {x.id for s_ in tree.body if not isinstance(s_, (ast.Import, ast.ImportFrom, ast.ClassDef, ast.FunctionDef))
+                                     for x in ast.walk(s_) if isinstance(x, ast.Name) and isinstance(x.ctx, ast.Store)} \
+                and not any(isinstance(s_, (ast.ClassDef, ast.FunctionDef)) and s_.name == 'Number' for s_ in tree.body)
             try:
                 lines = ft.translate()
             finally:
@@ -984,7 +1473,8 @@ def translate_all(cfg=None, root=None):
                 # untranslatable function does not drag the functions calling it out of the subset as well
                 if getattr(ft, 'sig_ok', False):
                     done.append(dict(qualname=tg['qualname'], lean=tg['lean'], consts=ft.consts, types=ft.ptypes,
-                                     ret=ft.ret, params=[x.arg for x in ft.fn.args.args][1:],
+                                     ret=ft.ret, params=[x.arg for x in ft.fn.args.args][1:], file=tg['file'],
+                                     property=bool(tg.get('property')), defaults=ft.defaults, unit=tg.get('unit', ''),
                                      recv=tg.get('self_class') or tg['qualname'].rsplit('.', 1)[0]))
             blocks[tg['lean']] = '\n'.join(lines) + '\n'
         except (Untranslatable, _Fallback) as e:
@@ -1006,13 +1496,30 @@ def describe(t):
 MARK = '-- @target '
 
 
-def assemble(cfg, blocks, order):
+DEFAULT_UNITS = {'': {'file': 'Generated.lean', 'imports': ['Fca.Gen.Rt']}}
+
+
+def units(cfg):
+    """unit name -> {file (under lean/Fca/Gen/), imports}; a target belongs to the unit named by its "unit" (default '')"""
+    return cfg.get('units') or DEFAULT_UNITS
+
+
+def unit_path(cfg, unit):
+    return os.path.join(VERIF, 'lean', 'Fca', 'Gen', units(cfg)[unit]['file'])
+
+
+def unit_module(cfg, unit):
+    return 'Fca.Gen.' + units(cfg)[unit]['file'][:-len('.lean')]
+
+
+def assemble(cfg, blocks, order, unit=''):
     by = {t['lean']: t for t in cfg['targets']}
-    srcs = sorted({f'{t["file"]}:{t["qualname"]}' for t in cfg['targets'] if blocks.get(t['lean'])})
+    mine = [n for n in order if by[n].get('unit', '') == unit]
+    srcs = sorted({f'{by[n]["file"]}:{by[n]["qualname"]}' for n in mine if blocks.get(n)})
     out = ['-- GENERATED by harness/py2lean.py from ' + ', '.join(srcs) + '; do not edit',
-           '-- (regenerate with `python harness/genside.py --regen`; equivalence with the hand-written models: Fca/Gen/Equiv.lean, EquivOps.lean)',
-           'import Fca.Gen.Rt', '', f'namespace {NAMESPACE}', '']
-    for name in order:
+           '-- (regenerate with `python harness/genside.py --regen`; equivalence with the hand-written models: Fca/Gen/Equiv*.lean)']
+    out += [f'import {m}' for m in units(cfg)[unit]['imports']] + ['', f'namespace {NAMESPACE}', '']
+    for name in mine:
         if not blocks.get(name):
             continue
         t = by[name]
@@ -1039,6 +1546,7 @@ def split_blocks(text):
 if __name__ == '__main__':
     cfg_ = load_config()
     blocks_, errors_, order_ = translate_all(cfg_)
-    sys.stdout.write(assemble(cfg_, blocks_, order_))
+    for u_ in units(cfg_):
+        sys.stdout.write(assemble(cfg_, blocks_, order_, u_))
     for k_, e_ in errors_.items():
         print(f'-- {k_}: {e_}', file=sys.stderr)
